@@ -1018,10 +1018,10 @@ Proof.
   set (k := 6 + length R + 2 + length op) in *.
   assert (L2 : leads false msg k (mkSt SOperation p1 (6 + length R + 2) false "" "") (set_rel r R)
                      (S k) (mkSt SColName p1 (k + 2) false "" "") (set_op (set_rel r R) op))
-    by (apply leads_step; [rewrite Hlen; lia | exact Hb | lia]).
+    by (apply leads_step; [lia | exact Hb | lia]).
   assert (L3 : leads false msg (S k) (mkSt SColName p1 (k + 2) false "" "") (set_op (set_rel r R) op)
                      (k + 2) (mkSt SColName p1 (k + 2) false "" "") (set_op (set_rel r R) op))
-    by (apply (leads_skip false msg (S k) (mkSt SColName p1 (k + 2) false "" "")); simpl; lia).
+    by (apply (leads_skip false msg (S k) (mkSt SColName p1 (k + 2) false "" "")); simpl ts; lia).
   set (a := "table " +++ R +++ ": " +++ op +++ ": ").
   assert (Hla : length a = k + 2).
   { unfold a, k. simpl. rewrite !slen_app. simpl. rewrite !slen_app. simpl. lia. }
@@ -1062,7 +1062,7 @@ Lemma simple_dml : forall R op t,
     Ok (mkPR "" R op (is_none t) (opt_cols t) []).
 Proof.
   intros R op t HR Hop Hnt Hok Hnb. rewrite (print_tuple_opt_body t Hok).
-  unfold parse_full. rewrite (dml_prelude R op _ empty_result HR Hop Hnt eq_refl).
+  unfold parse_full. rewrite (dml_prelude R op (String " " (opt_body t)) empty_result HR Hop Hnt eq_refl).
   rewrite (dml_columns R op (opt_body t) _ (apply_tuple false t (mkPR "" R op false [] [])) HR Hop Hnt).
   - now rewrite apply_tuple_false.
   - intros a p Hma Hp. apply tuple_opt_leads; assumption.
@@ -1079,7 +1079,7 @@ Proof.
   intros R o t HR Hoo Hnbo Hok Hnb. rewrite (print_tuple_opt_body t Hok).
   set (T' := "old-key:" +++ print_tuple o +++ " new-tuple:" +++ String " " (opt_body t)).
   change (" old-key:" +++ print_tuple o +++ " new-tuple:" +++ String " " (opt_body t)) with (String " " T').
-  unfold parse_full. rewrite (dml_prelude R "UPDATE" _ empty_result HR eq_refl eq_refl eq_refl).
+  unfold parse_full. rewrite (dml_prelude R "UPDATE" (String " " T') empty_result HR eq_refl eq_refl eq_refl).
   rewrite (dml_columns R "UPDATE" T' _
              (apply_tuple false t (set_cols true o (mkPR "" R "UPDATE" false [] []))) HR eq_refl eq_refl).
   - rewrite set_cols_true. now rewrite apply_tuple_false.
@@ -1098,4 +1098,268 @@ Proof.
       as [st' [Hc L2]].
     rewrite Hl2 in L2. exists st'. split; [exact Hc|].
     eapply leads_trans; [exact L1 | exact L2].
+Qed.
+
+(* ------------------------------------------------------------------------------------------ *)
+(* BEGIN / COMMIT *)
+
+Lemma digit_is_digit : forall k, (k < 10)%N -> is_digit (digit k) = true.
+Proof.
+  intros k H.
+  assert (H' : (k = 0 \/ k = 1 \/ k = 2 \/ k = 3 \/ k = 4 \/ k = 5 \/ k = 6 \/ k = 7 \/ k = 8 \/ k = 9)%N) by lia.
+  repeat (destruct H' as [->|H']; [reflexivity|]). subst; reflexivity.
+Qed.
+
+Lemma dec_fuel_digits : forall f n acc,
+  str_all is_digit acc = true -> str_all is_digit (dec_fuel f n acc) = true.
+Proof.
+  induction f as [|f IH]; intros n acc H; [exact H|].
+  simpl.
+  assert (H' : str_all is_digit (String (digit (n mod 10)) acc) = true).
+  { simpl. rewrite digit_is_digit; [exact H | apply N.mod_lt; discriminate]. }
+  destruct (n <? 10)%N; [exact H' | apply IH, H'].
+Qed.
+
+Lemma dec_fuel_nonempty : forall f n c acc, exists d ds, dec_fuel f n (String c acc) = String d ds.
+Proof.
+  induction f as [|f IH]; intros n c acc; [do 2 eexists; reflexivity|].
+  simpl. destruct (n <? 10)%N; [do 2 eexists; reflexivity | apply IH].
+Qed.
+
+Lemma dec_shape : forall x, exists d ds, dec x = String d ds /\ str_all is_digit (String d ds) = true.
+Proof.
+  intros x. pose proof (dec_fuel_digits (S (N.to_nat (N.log2 x))) x "" eq_refl) as Hd.
+  fold (dec x) in Hd.
+  assert (exists d ds, dec x = String d ds) as [d [ds E]].
+  { unfold dec. simpl. destruct (x <? 10)%N; [do 2 eexists; reflexivity | apply dec_fuel_nonempty]. }
+  exists d, ds. split; [exact E | now rewrite <- E].
+Qed.
+
+Lemma ws_len_digit : forall c r, is_digit c = true -> ws_len (String c r) = 0.
+Proof.
+  intros c r H.
+  destruct c as [[] [] [] [] [] [] [] []]; try discriminate H;
+    destruct r as [|c1 [|c2 r2]]; reflexivity.
+Qed.
+
+Lemma fields_digits : forall ds w, str_all is_digit ds = true -> fields_go ds 0 w = flush (w +++ ds).
+Proof.
+  induction ds as [|c ds IH]; intros w H.
+  - simpl. now rewrite sapp_nil_r.
+  - simpl in H. apply andb_prop in H. destruct H as [Hc Hds].
+    change (fields_go (String c ds) 0 w) with
+      (match ws_len (String c ds) with
+       | O => fields_go ds 0 (w +++ String c "")
+       | S k => flush w ++ fields_go ds k ""
+       end).
+    rewrite (ws_len_digit c ds Hc). rewrite (IH _ Hds). now rewrite sapp_assoc.
+Qed.
+
+Lemma fields_begin : forall d ds, str_all is_digit (String d ds) = true ->
+  fields ("BEGIN " +++ String d ds) = ["BEGIN"; String d ds].
+Proof.
+  intros d ds H. unfold fields.
+  change (fields_go ("BEGIN " +++ String d ds) 0 "") with ("BEGIN" :: fields_go (String d ds) 0 "").
+  now rewrite (fields_digits _ "" H).
+Qed.
+
+Lemma fields_commit : forall d ds, str_all is_digit (String d ds) = true ->
+  fields ("COMMIT " +++ String d ds) = ["COMMIT"; String d ds].
+Proof.
+  intros d ds H. unfold fields.
+  change (fields_go ("COMMIT " +++ String d ds) 0 "") with ("COMMIT" :: fields_go (String d ds) 0 "").
+  now rewrite (fields_digits _ "" H).
+Qed.
+
+Lemma parse_begin : forall pre X r,
+  parse pre ("BEGIN " +++ X) r =
+    match fields ("BEGIN " +++ X) with
+    | [a; b] => Ok (mkPR b (pr_rel r) a (pr_notuple r) (pr_cols r) (pr_old r))
+    | _ => Err
+    end.
+Proof. reflexivity. Qed.
+
+Lemma parse_commit : forall pre X r,
+  parse pre ("COMMIT " +++ X) r =
+    match fields ("COMMIT " +++ X) with
+    | [a; b] => Ok (mkPR b (pr_rel r) a (pr_notuple r) (pr_cols r) (pr_old r))
+    | _ => Err
+    end.
+Proof. reflexivity. Qed.
+
+(* ------------------------------------------------------------------------------------------ *)
+(* the round trip *)
+
+Lemma flags_head : forall rs ca : bool,
+  head_byte (if (rs || ca)%bool then (if rs then " restart_seqs" else "") +++ (if ca then " cascade" else "")
+             else " (no-flags)") = " "%char.
+Proof. intros [] []; reflexivity. Qed.
+
+Theorem roundtrip_nobit : forall c, WF c = true -> no_bit c = true -> parse_full (print c) = Ok (expected c).
+Proof.
+  intros c Hwf Hnb. destruct c as [x|x|ns rel new|ns rel old new|ns rel old|rels rs ca]; unfold print, expected.
+  - destruct (dec_shape x) as [d [ds [E Hd]]]. rewrite E. unfold parse_full.
+    rewrite parse_begin, (fields_begin d ds Hd). cbv beta iota.
+    rewrite parse_begin, (fields_begin d ds Hd). reflexivity.
+  - destruct (dec_shape x) as [d [ds [E Hd]]]. rewrite E. unfold parse_full.
+    rewrite parse_commit, (fields_commit d ds Hd). cbv beta iota.
+    rewrite parse_commit, (fields_commit d ds Hd). reflexivity.
+  - exact (simple_dml (qualified ns rel) "INSERT" new (scan_qualified ns rel) eq_refl eq_refl Hwf Hnb).
+  - simpl in Hwf, Hnb. apply andb_prop in Hwf. destruct Hwf as [Hwo Hwn].
+    apply andb_prop in Hnb. destruct Hnb as [Hno Hnn].
+    destruct old as [o|].
+    + exact (update_with_old (qualified ns rel) o new (scan_qualified ns rel) Hwo Hno Hwn Hnn).
+    + exact (simple_dml (qualified ns rel) "UPDATE" new (scan_qualified ns rel) eq_refl eq_refl Hwn Hnn).
+  - exact (simple_dml (qualified ns rel) "DELETE" old (scan_qualified ns rel) eq_refl eq_refl Hwf Hnb).
+  - unfold parse_full.
+    pose proof (fun pre r => truncate_parse pre (print_rels rels) _ r (scan_rels rels) (flags_head rs ca)) as P.
+    change ("table " +++ print_rels rels +++ ": TRUNCATE:" +++
+            (if (rs || ca)%bool then (if rs then " restart_seqs" else "") +++ (if ca then " cascade" else "")
+             else " (no-flags)"))
+      with ("table " +++ print_rels rels +++ ": " +++ "TRUNCATE" +++ ":" +++
+            (if (rs || ca)%bool then (if rs then " restart_seqs" else "") +++ (if ca then " cascade" else "")
+             else " (no-flags)")).
+    rewrite (P true empty_result). rewrite (P false _). reflexivity.
+Qed.
+
+(* ------------------------------------------------------------------------------------------ *)
+(* every type name format_type_be can print satisfies the hypothesis [type_ok] *)
+
+Lemma scan_builtin : forall w, str_all builtin_char w = true -> scan true type_stop MTop w = true.
+Proof.
+  induction w as [|c w IH]; [reflexivity|]. simpl str_all. intros H.
+  apply andb_prop in H. destruct H as [Hc Hw]. unfold builtin_char in Hc.
+  apply andb_prop in Hc. destruct Hc as [Hc H3]. apply andb_prop in Hc. destruct Hc as [H1 H2].
+  apply negb_true_iff in H1, H2, H3.
+  rewrite scan_cons. unfold type_stop. rewrite H2, H3, H1. simpl. apply IH, Hw.
+Qed.
+
+Lemma scan_arr : forall a : bool, scan true type_stop MTop (if a then "[]" else "") = true.
+Proof. intros []; reflexivity. Qed.
+
+Lemma arr_head : forall a : bool, head_byte (if a then "[]" else "") <> dq.
+Proof. intros []; simpl; discriminate. Qed.
+
+Lemma format_type_ok : forall t, pgtype_ok t = true -> type_ok (format_type t) = true.
+Proof.
+  intros [w a|a|[ns|] n a] H; unfold type_ok, format_type.
+  - apply scan_app; [apply scan_builtin, H | apply arr_head | apply scan_arr].
+  - destruct a; reflexivity.
+  - apply scan_app; [apply scan_quote_ident; [exact type_stop_ident | reflexivity] | simpl; discriminate |].
+    change ("." +++ quote_ident n +++ (if a then "[]" else ""))
+      with (String "." (quote_ident n +++ (if a then "[]" else ""))).
+    rewrite scan_cons. simpl.
+    apply scan_app; [apply scan_quote_ident; [exact type_stop_ident | reflexivity] | apply arr_head | apply scan_arr].
+  - apply scan_app; [apply scan_quote_ident; [exact type_stop_ident | reflexivity] | apply arr_head | apply scan_arr].
+Qed.
+
+(* ------------------------------------------------------------------------------------------ *)
+(* [exp_cols] is the plain list of columns when the printed names are distinct *)
+
+Lemma aset_fresh : forall (V : Type) k (v : V) m, ~ In k (map fst m) -> aset k v m = m ++ [(k, v)].
+Proof.
+  induction m as [|[k' v'] m IH]; simpl; intros H; [reflexivity|].
+  destruct (String.eqb_spec k k') as [->|Hne]; [exfalso; apply H; now left|].
+  rewrite IH; [reflexivity|]. intros Hin. apply H. now right.
+Qed.
+
+Definition col_entry (c : col) : string * colval := (quote_ident (c_name c), exp_colval c).
+
+Lemma exp_cols_distinct : forall t m,
+  NoDup (map fst m ++ map (fun c => quote_ident (c_name c)) t) ->
+  exp_cols m t = m ++ map col_entry t.
+Proof.
+  induction t as [|c t IH]; intros m H; simpl; [now rewrite app_nil_r|].
+  simpl in H. pose proof (NoDup_remove_2 _ _ _ H) as Hnot.
+  rewrite aset_fresh by (intros Hin; apply Hnot, in_or_app; now left).
+  rewrite IH.
+  - rewrite <- app_assoc. reflexivity.
+  - rewrite map_app. simpl. rewrite <- app_assoc. exact H.
+Qed.
+
+(* ------------------------------------------------------------------------------------------ *)
+(* [expected c] is accepted by the acceptance relation of the full statement *)
+
+Definition mapv {A B} (f : A -> B) (m : list (string * A)) : list (string * B) :=
+  map (fun kv => (fst kv, f (snd kv))) m.
+
+Lemma aset_mapv : forall A B (f : A -> B) k v m, aset k (f v) (mapv f m) = mapv f (aset k v m).
+Proof.
+  induction m as [|[k' v'] m IH]; simpl; [reflexivity|].
+  destruct (String.eqb k k'); simpl; [reflexivity | now rewrite IH].
+Qed.
+
+Lemma aget_mapv : forall A B (f : A -> B) k m, aget k (mapv f m) = option_map f (aget k m).
+Proof.
+  induction m as [|[k' v'] m IH]; simpl; [reflexivity|].
+  destruct (String.eqb k k'); [reflexivity | exact IH].
+Qed.
+
+Lemma exp_cols_abs : forall t m, exp_cols (mapv exp_colval m) t = mapv exp_colval (exp_abs m t).
+Proof.
+  induction t as [|c t IH]; intros m; simpl; [reflexivity|].
+  rewrite aset_mapv. apply IH.
+Qed.
+
+Lemma aset_keys_in : forall A x k (v : A) m, In x (map fst (aset k v m)) -> x = k \/ In x (map fst m).
+Proof.
+  induction m as [|[k' v'] m IH]; simpl; intros H.
+  - destruct H as [H|[]]; now left.
+  - destruct (String.eqb_spec k k') as [->|Hne]; simpl in H.
+    + destruct H as [H|H]; [right; now left | right; now right].
+    + destruct H as [H|H]; [right; now left|]. destruct (IH H); [now left | right; now right].
+Qed.
+
+Lemma aset_nodup : forall A k (v : A) m, NoDup (map fst m) -> NoDup (map fst (aset k v m)).
+Proof.
+  induction m as [|[k' v'] m IH]; simpl; intros H.
+  - constructor; [intros [] | constructor].
+  - destruct (String.eqb_spec k k') as [->|Hne]; simpl; [exact H|].
+    inversion H as [|? ? Hnot Hnd]; subst. constructor; [|now apply IH].
+    intros Hin. destruct (aset_keys_in _ _ _ _ _ Hin) as [E|Hin']; [now apply Hne | contradiction].
+Qed.
+
+Lemma exp_abs_nodup : forall t m, NoDup (map fst m) -> NoDup (map fst (exp_abs m t)).
+Proof. induction t as [|c t IH]; intros m H; simpl; [exact H | apply IH, aset_nodup, H]. Qed.
+
+Lemma aget_in_nodup : forall A k (v : A) m, NoDup (map fst m) -> In (k, v) m -> aget k m = Some v.
+Proof.
+  induction m as [|[k' v'] m IH]; simpl; intros Hnd Hin; [contradiction|].
+  inversion Hnd as [|? ? Hnot Hnd']; subst.
+  destruct Hin as [E|Hin].
+  - inversion E; subst. now rewrite String.eqb_refl.
+  - destruct (String.eqb_spec k k') as [->|Hne]; [|now apply IH].
+    exfalso. apply Hnot. change k' with (fst (k', v)). now apply in_map.
+Qed.
+
+Lemma colval_eqb_refl : forall v, colval_eqb v v = true.
+Proof. intros [x t q]. unfold colval_eqb. simpl. rewrite !String.eqb_refl. now destruct q. Qed.
+
+Lemma accept_cols_expected : forall e, NoDup (map fst e) -> accept_cols e (mapv exp_colval e) = true.
+Proof.
+  intros e Hnd. unfold accept_cols. unfold mapv at 1. rewrite map_length, Nat.eqb_refl. simpl.
+  apply forallb_forall. intros [k c] Hin. simpl.
+  rewrite aget_mapv, (aget_in_nodup _ k c e Hnd Hin). simpl.
+  unfold accept_col. now rewrite colval_eqb_refl.
+Qed.
+
+Lemma accept_opt : forall t, accept_cols (opt_abs t) (opt_cols t) = true.
+Proof.
+  intros [t|]; simpl; [|reflexivity].
+  change (@nil (string * colval)) with (mapv exp_colval (@nil (string * col))).
+  rewrite exp_cols_abs. apply accept_cols_expected. apply exp_abs_nodup. constructor.
+Qed.
+
+Lemma accepts_expected : forall c, accepts c (expected c) = true.
+Proof.
+  intros c. unfold accepts.
+  rewrite !String.eqb_refl. replace (Bool.eqb (pr_notuple (expected c)) (pr_notuple (expected c))) with true
+    by (now destruct (pr_notuple (expected c))).
+  destruct c; simpl; rewrite ?accept_opt; reflexivity.
+Qed.
+
+Corollary roundtrip_accepts : forall c, WF c = true -> no_bit c = true ->
+  exists r, parse_full (print c) = Ok r /\ accepts c r = true.
+Proof.
+  intros c Hwf Hnb. exists (expected c). split; [now apply roundtrip_nobit | apply accepts_expected].
 Qed.
